@@ -212,6 +212,8 @@ def check_node(node, st, fl):
         outs = [check_pipeline(b, st, fl.sub(in_tee=True)) for b in bs]
         if any(len(b) == 0 for b in bs):
             raise Invalid('empty branch')
+        if node['join'] != 'merge' and any(o.aliased for o in outs):
+            raise Invalid('zip/combine_latest retain branch items: aliased items not allowed')
         if node['join'] == 'zip':
             empty = any(o.empty for o in outs)
         else:
